@@ -39,6 +39,21 @@ def main():
         d = json.load(open(m))
         out.append('| %s | %s | %s | %s | %s |' % (d['id'], d['property'], d['breaks'], d['needs_to_manifest'], d['result']))
     s = block(s, 'SEEDS', '\n'.join(out))
+    # statistics of the seeded changes
+    metas = [json.load(open(m)) for m in sorted(glob.glob(os.path.join(V, 'seeded', '*', 'meta.json')))]
+    n = len(metas)
+    missed = [d for d in metas if d['result'].lower().startswith('missed')]
+    weak = [d for d in metas if d['result'].lower().startswith('first only')]
+    notp = [d for d in metas if d.get('not_pursued')]
+    sib = [d for d in missed if 'caught by' in d['result'] or 'is reported as VIOLATION with replay by the' in d['result']]
+    st = ('%d changes are archived. %d were reported as VIOLATION with a concrete replay by the check of their own '
+          'property on the first run; %d were first reported only as `no-failing-input-found`; %d were missed by the '
+          'check of their own property on the first run - of those, %d break, in shared code, a clause that belongs to '
+          'a sibling property whose check reports them with a replay (recorded in `run_checks` of their meta.json), '
+          '%d was judged outside the property\'s quantifier and not pursued, and every other one led to a stronger check '
+          '(wider generators, new operations in model and theorems, or a fix in `harness/core.py`) and is caught now.'
+          % (n, n - len(missed) - len(weak), len(weak), len(missed), len(sib), len(notp)))
+    s = block(s, 'SEEDSTATS', st)
     # per property as built
     claims = json.load(open(os.path.join(V, 'tools', 'manifest_claims.json')))
     props = [json.loads(l) for l in open(os.path.join(V, 'properties.jsonl'))]
